@@ -25,6 +25,8 @@ Record c13_case := mkCase {
   k_direct : list (res binding);                  (* f called directly on each call shape *)
   k_fsig_after : signature;                       (* inspect.signature(f) again, after all the wrapping *)
   k_fdict_after : pydict nat;                     (* f.__dict__ after all the wrapping *)
+  k_again : option signature;                     (* own signature of one more plain wraps(f)(w) made after
+                                                     the whole stack (None: it raised): no state leaks *)
   k_levels : list built_obs;                      (* the levels that were built, innermost first *)
   k_fail : option exn;                            (* the error that stopped the stack, if any *)
   k_top_calls : list (option call * res binding)
@@ -50,6 +52,12 @@ Fixpoint forall2b {A B} (f : A -> B -> bool) (l1 : list A) (l2 : list B) : bool 
   end.
 
 (* ---- agree: the model predicts every observation ----------------------------- *)
+Definition model_again (f : pyfunc) : option signature :=
+  match update_wrapper f [] [] with
+  | Ok g => match sig_of (b_func g) with Ok s => Some s | Raise _ => None end
+  | Raise _ => None
+  end.
+
 Definition level_agree (g : built) (o : built_obs) : bool :=
   res_eqb sig_eqb (sig_of (b_func g)) (Ok (bo_sig o)) &&
   Nat.eqb (f_name (b_func g)) (bo_name o) &&
@@ -65,6 +73,7 @@ Definition agree (k : c13_case) : bool :=
   list_eqb rb_eqb (map (call_func f) (k_calls k)) (k_direct k) &&
   (* the model is pure: wrapping leaves f as it was *)
   res_eqb sig_eqb (sig_of f) (Ok (k_fsig_after k)) && dict_equiv (f_dict f) (k_fdict_after k) &&
+  option_eqb sig_eqb (model_again f) (k_again k) &&
   let '(gs, e) := run_steps f (k_steps k) in
   forall2b level_agree gs (k_levels k) &&
   option_eqb exn_eqb e (k_fail k) &&
@@ -139,6 +148,8 @@ Definition holds (k : c13_case) : bool :=
   list_eqb rb_eqb (map (bind (sg_params (k_fsig k))) (k_calls k)) (k_direct k) &&
   (* wrapping does not touch the wrapped function *)
   sig_eqb (k_fsig k) (k_fsig_after k) && dict_equiv (f_dict f) (k_fdict_after k) &&
+  (* ... and nothing of it leaks into a later, independent wraps(f) *)
+  option_eqb sig_eqb (Some (k_fsig k)) (k_again k) &&
   match levels_ok f (k_fasync k) (k_fsig k) (f_id f) (k_steps k) (k_levels k) (k_fail k) with
   | None => false
   | Some top =>
